@@ -82,3 +82,14 @@ Proof.
   destruct K as [K1 K2]. destruct r as [|c2 r2]; [exact K1|].
   apply IH; [exact K2|discriminate].
 Qed.
+
+(* the single-neuron controller: its output goes through the same clamp *)
+Theorem f64_neuro_out_in_limits (n : @neuro pfloat) (set f e ec : pfloat) : lim_ok (npid n) ->
+  (out_ok (npid (neuro_run F64_ops n set f)) /\ lim_ok (npid (neuro_run F64_ops n set f))) /\
+  (out_ok (npid (neuro_inc_ F64_ops n f e ec)) /\ lim_ok (npid (neuro_inc_ F64_ops n f e ec))) /\
+  (out_ok (npid (neuro_inc F64_ops n set f)) /\ lim_ok (npid (neuro_inc F64_ops n set f))).
+Proof.
+  intros (Fl & Fh & Hlh).
+  repeat split; unfold neuro_run, neuro_inc, neuro_inc_, pid_run_, upd, out_ok, lim_ok; cbn [npid out outmin outmax];
+    try assumption; try (apply f64_sat_in_limits; assumption).
+Qed.
